@@ -785,7 +785,11 @@ var allTypeCodes = []byte{0, 1, 2, 3, 4, 5, 6, 7, 8, 9, 10, 11, 12, 13, 14, 15, 
 // jsonSpecials: every byte / sequence that a JSON string encoder must treat specially, used one at a time so that a
 // fast path keyed on "some other special character is present" cannot hide a missed case.
 var jsonSpecials = []string{"\\", "\"", "/", "\b", "\f", "\n", "\r", "\t", "\x00", "\x1f", "\x7f", "<", ">", "&", "'", "\xe2\x80\xa8", "\xe2\x80\xa9",
-	"\xc3\xa9", "\xf0\x9f\x98\x80", "\xff", "\x80", "\xc0\xaf", "\xed\xa0\x80", "\\u0041", "\\n", "\\\"", "%", "{", "}", "[", "]", ":", ","}
+	"\xc3\xa9", "\xf0\x9f\x98\x80", "\xff", "\x80", "\xc0\xaf", "\xed\xa0\x80", "\\u0041", "\\n", "\\\"", "%", "{", "}", "[", "]", ":", ",",
+	// valid UTF-8 at the edges of the encoding: the replacement character itself (U+FFFD), noncharacters, the first / last
+	// code point of every length, the code points around the surrogate gap, other C0 / C1 controls and DEL
+	"\xef\xbf\xbd", "\xef\xbf\xbe", "\xef\xbf\xbf", "\xf4\x8f\xbf\xbf", "\xc2\x80", "\xdf\xbf", "\xe0\xa0\x80", "\xed\x9f\xbf", "\xee\x80\x80",
+	"\xf0\x90\x80\x80", "\xf3\xa0\x80\x81", "\x01", "\x07", "\x0b", "\x0e", "\x10", "\x1b", "\xc2\x85", "\xc2\x9f"}
 
 func oneSpecial(r *rand.Rand) []byte {
 	sp := jsonSpecials[r.Intn(len(jsonSpecials))]
